@@ -134,10 +134,12 @@ class ByteArray(SimpleModel):
 
     @classmethod
     def from_urlsafe_base64(cls, value):
-        #FIXME: Find out why we need to do this.
-        if isinstance(value, six.text_type):
-            value = value.encode('utf8')
         try:
+            #FIXME: Find out why we need to do this.
+            if isinstance(value, six.text_type):
+                # UnicodeEncodeError (lone surrogates) is a ValueError
+                value = value.encode('utf8')
+
             if isinstance(value, (list, tuple)):
                 return (urlsafe_b64decode(_bytes_join(value)),)
             else:
@@ -149,7 +151,7 @@ class ByteArray(SimpleModel):
             if len(value) < 100:
                 raise ValidationError(value)
             else:
-                raise ValidationError(value[:100] + b"(...)")
+                raise ValidationError(value[:100])
 
     @classmethod
     def to_hex(cls, value):
